@@ -76,8 +76,7 @@ CHECKS = {
              'After every step ~80-200 queries are compared with the model '
              'and the file is parsed by an independent parser.',
         design='3 (C04)',
-        note='marker records may answer POSKeyError or None; empty '
-             'transactions may be omitted from undoLog'),
+        note='marker records may answer POSKeyError or None'),
     'C05': dict(
         technique='exhaustive fault-point and abort-phase enumeration over '
                   'all prefix histories up to a depth on the real storages, '
@@ -192,8 +191,8 @@ CHECKS = {
              'kinds must raise ConflictError and store nothing. Failing-then-'
              'mergeable sequences on one class catch poisoned caches.',
         design='5 (C10)',
-        note='MappingStorage has no resolution; the undo merge path is '
-             'checked by C06'),
+        note='MappingStorage has no resolution; longer undo histories are '
+             'explored by C06'),
     'C11': dict(
         technique='explicit-state exploration of all operation sequences up '
                   'to a depth on a real connection against an object-state '
@@ -225,7 +224,7 @@ CHECKS = {
              'observer never sees uncommitted data; no TmpStore file survives '
              'the transaction.',
         design='5 (C12)',
-        note='blob savepoints are covered by C13'),
+        note='nested blob savepoints also in C13'),
     'C13': dict(
         technique='explicit-state exploration of all blob operation sequences '
                   'up to a depth on a real connection over FileStorage with a '
@@ -243,8 +242,9 @@ CHECKS = {
              'connection reads its working bytes and an observer only '
              'committed bytes.',
         design='5 (C13)',
-        note='blob records are byte-identical, so undo never conflicts on a '
-             'blob; redo of an undone creation is outside the alphabet'),
+        note='a later change of a blob\'s bytes is a conflicting change for '
+             'undo; the wrapper\'s writable undo copies and its stray copy '
+             'of an undone creation are exempted (DESIGN 2.4)'),
     'C14': dict(
         technique='bounded-exhaustive enumeration of object-graph inputs '
                   '(node kinds x edge subsets x edge placements x add modes x '
@@ -322,8 +322,9 @@ CHECKS = {
              'the undamaged file must each answer the whole battery like the '
              'source (tids, status, metadata, records, un-creations); blob '
              'histories are copied file by file. For 3 fixed histories (all '
-             'depth-2/3 histories in the thorough tier) every byte offset x '
-             '{cut, zero 1/8/64 bytes, 0xFF x 8} is recovered under a read '
+             'depth-2 histories in the thorough tier) every byte offset x '
+             '{cut, zero 1/8/64 bytes, 0xFF x 8, one checkpoint-flag byte} '
+             'is recovered under a read '
              'budget: it must terminate, keep every transaction that ends '
              'before the damage, and change no transaction outside it.',
         design='3 (C17)',
@@ -381,6 +382,94 @@ CHECKS = {
         design='3 (C20)',
         note='ids issued but never stored may be re-issued after reopen'),
 }
+
+MORE = {
+    'C02': 'A harness whose object x was last written by an undo (a record '
+           'pointing back to older data) makes every raw read through the '
+           'storage\'s own read/write handle a scheduling point.',
+    'C03': 'Objects of a bit-set class that merges (every writer adds its own '
+           'bit: no revision may lose a bit, every committed bit is in the '
+           'final state, a failed commit\'s bit nowhere), writers across an '
+           'undo / a delete of the revision they hold, readCurrent declared '
+           'on a ghost, and readCurrent followed by a tentative change that '
+           'is rolled back (with and without a savepoint that stored it).',
+    'C04': 'Metadata with one field only, extension keys named like the '
+           'entries the storage computes, stale writers on deleted / '
+           'un-created objects; the undo log must list every transaction.',
+    'C05': 'One failure at every raw operation of tpc_finish and a raising '
+           'finish callback (afterwards byte for byte the old file or the one '
+           'a twin run without the failure produces); the abort / metadata / '
+           'conflict / stray-tpc_abort / finish-callback victims also on '
+           'three DemoStorage layerings and the BlobStorage wrapper over a '
+           'FileStorage and a MappingStorage, with blob stores.',
+        'C06': 'DB.undoMultiple in both orders; after every refused DB.undo the '
+           'next ordinary commit must go through (controlled locks).',
+    'C07': 'Packs of a storage whose first request hit an empty database, a '
+           'start state with two records of one object in one transaction, '
+           'stale-id undo of the newest packed transaction (refused, or same '
+           'effect as without pack), DB.pack(t, days) for every argument '
+           'combination.',
+    'C08': 'Three concurrent packs with a packer-entry oracle, pack+writer '
+           'with 64 / 96 / 160-byte buffers (read-ahead and partial flushes), '
+           'one ENOSPC at the n-th file-system operation of a pack for every '
+           'n (pack time at the end and in the middle) and a stale .old that '
+           'cannot be removed: a failed pack leaves the same answers, and the '
+           'next commit, pack and reopen work.',
+    'C09': 'Torn-tail images opened read-only incl. start/stop iteration; a '
+           'read-only open told about a blob directory that does not exist '
+           'creates nothing.',
+    'C10': 'The base or the committed revision written by a transactional '
+           'undo (FileStorage, DemoStorage with a FileStorage as changes or '
+           'as base), a writer that stores the state it started from, and the '
+           'undo path itself: one undo, two undos in one transaction in both '
+           'orders, for every class kind and reference set.',
+    'C11': 'A new object reachable only through an existing object whose '
+           'store fails; modifications refused by the transaction machinery '
+           '(explicit mode outside a transaction, a failed transaction not '
+           'yet aborted) for two connections sharing one manager, independent '
+           'and as primary / secondary of a multi-database with close of the '
+           'primary; observers look after every step.',
+    'C12': 'Blob rewrites (FileStorage with a blob directory), a rival '
+           'commit or another participant\'s failing vote after savepoints '
+           '(plain objects, blobs, new objects), leftovers under the blob '
+           'temporary directory.',
+    'C13': 'Two live savepoints from states where a savepoint holds the blob '
+           '/ only the plain object; the BlobStorage wrapper over FileStorage '
+           'and MappingStorage; an undo that is started and aborted; a rival '
+           'rewriting the blob itself; consumeFile of a missing file; a pack '
+           'running inside another participant\'s vote; chains of undo / redo '
+           'of a creation and of a rewrite.',
+    'C14': 'A weak edge in the savepoint re-attach family (same WeakRef '
+           'object attached twice), a holder of a missing-class object '
+           'modified and stored while the class is missing, a weak '
+           'cross-database edge read in a session without that database; an '
+           'edge that leads to another (already visited) node is a '
+           'violation.',
+    'C15': 'Aware datetimes in two non-UTC zones; two databases of one '
+           'multi-database with every interleaving pattern of their commits, '
+           'read through get_connection and a cross-database reference at '
+           'every point, writes through the secondary refused.',
+    'C16': 'The temporary changes a demo storage creates itself as third '
+           'changes kind, pack as DB.pack asks for it; a pack must leave '
+           'every current state, a failing pack everything; a blob-capable '
+           'base under a fresh implicit / pushed layer with every pair of '
+           'blob operations first.',
+    'C17': 'A MappingStorage as the source of copyTransactionsFrom.',
+    'C18': 'Backups during which the clock moves at every reading, within '
+           'the same second as the step before (may be refused), with a pack '
+           'completing inside the run; a start state whose newest increment '
+           'is empty; a repository path with a blank; damage histories with '
+           'an older chain behind the current one and with empty increments; '
+           'a recovery must come with an index.',
+    'C19': 'Value 0; delete + insert under the same prefix and clear + insert '
+           'from every state.',
+    'C20': 'The demo allocator\'s next random draw is an operation (aimed at '
+           'issued / stored ids), stores that are aborted; committers of an '
+           'explicit id just above the mark and of an issued id that the '
+           'random source keeps drawing.',
+}
+for _k, _v in MORE.items():
+    CHECKS[_k]['text'] += ' Added later: ' + _v
 
 NOT_BUILT_REASON = ('check not built yet in this round; the design claims it '
                     '(DESIGN.md section %s) and it will move to checks once '
